@@ -141,6 +141,11 @@ int describe_tree(const sqfs_tree_node_t *root, const char *unpack_root)
 		if (root->name[0] != '\0') {
 			if (print_simple("dir", root, NULL, false))
 				return -1;
+		} else if (root->parent == NULL) {
+			/* the root has permissions and an owner as well */
+			fputs("dir /", stdout);
+			print_perm(root);
+			fputc('\n', stdout);
 		}
 
 		for (n = root->children; n != NULL; n = n->next) {
